@@ -727,7 +727,7 @@ func runStorm(c caseT) obsT {
 	}
 	// churn: many subscribers register while others cancel and a writer writes (every write that meets a
 	// cancelled listener garbage-collects the bus).  Whoever registered and never cancelled is owed the last write.
-	if c.Iter%10 == 5 && o.WriterStall == 0 && o.Unclosed == 0 {
+	if c.Iter%5 == 0 && o.WriterStall == 0 && o.Unclosed == 0 {
 		const sentinel = 999999
 		pull := func(ctx context.Context) (recv func() (int, bool)) {
 			ro := []resource.ReadOption{resource.WithBackpressure(rnd.Intn(2) == 0), resource.WithUpdatesOnly(rnd.Intn(2) == 0)}
